@@ -303,15 +303,20 @@ impl GlobalIndex {
 
     /// Convert the `Arc<Index>` to an Index
     pub fn into_index(self) -> Index {
-        match Arc::try_unwrap(self.index) {
-            Ok(index) => index,
-            Err(arc) => {
-                // Seems index is still in use; this could be due to some threads using it which didn't yet completely shut down.
-                // sleep a bit to let threads using the index shut down, after this index should be available to unwrap
-                sleep(Duration::from_millis(100));
-                Arc::try_unwrap(arc).expect("index still in use")
+        // The index may still be in use by worker threads which didn't yet completely shut down
+        // (e.g. the tree streamer's threads after all trees have been received). They drop their
+        // handle when they exit, so wait for that instead of giving up after a fixed short delay.
+        let mut arc = self.index;
+        for _ in 0..3000 {
+            match Arc::try_unwrap(arc) {
+                Ok(index) => return index,
+                Err(still_shared) => {
+                    arc = still_shared;
+                    sleep(Duration::from_millis(10));
+                }
             }
         }
+        Arc::try_unwrap(arc).expect("index still in use")
     }
 
     pub(crate) fn drop_data(self) -> Self {
